@@ -176,11 +176,17 @@ def tdSecondsRat (r : Rat) : Except Err Int :=
       let x := sum + ip2
       if f2 = 0 then tdNorm x else tdNorm (x + roundLeftover x f2)
 
+/-- `float(n)` for a Python int, as the exact value of the resulting double: every integer of
+    magnitude ≤ 2⁵³ is a double, so the conversion is exact there (IEEE 754); beyond, the nearest
+    double, ties to even; `none` = OverflowError. -/
+def floatOfInt (n : Int) : Option Rat :=
+  if n.natAbs ≤ 9007199254740992 then some (n : Rat) else dbl (n : Rat)
+
 /-- `float(q.mag)` as the exact value of the resulting double.  `OverflowError` for an int /
     Fraction beyond the double range; an infinite float reaches `PyLong_FromDouble`
     (`OverflowError`), a NaN gives `ValueError`. -/
 def secondsOf : Num → Except Err Rat
-  | .int n => match dbl (n : Rat) with | some r => .ok r | none => .error .overflow
+  | .int n => match floatOfInt n with | some r => .ok r | none => .error .overflow
   | .frac q => match dbl q with | some r => .ok r | none => .error .overflow
   | .flt x => if x.isNaN then .error (.py "ValueError")
               else if x.isFinite then .ok (Num.floatToRat x) else .error .overflow
